@@ -5561,8 +5561,8 @@ evdns_cache_lookup(struct evdns_base *base,
 			ai = evutil_addrinfo_append_(ai, ai_new);
 		}
 	}
-	EVDNS_UNLOCK(base);
 out:
+	EVDNS_UNLOCK(base);
 	if (n_found) {
 		if (!ai) {
 			return EVUTIL_EAI_ADDRFAMILY;
@@ -5825,8 +5825,8 @@ evdns_getaddrinfo_fromhosts(struct evdns_base *base,
 		}
 		ai = evutil_addrinfo_append_(ai, ai_new);
 	}
-	EVDNS_UNLOCK(base);
 out:
+	EVDNS_UNLOCK(base);
 	if (n_found) {
 		if (!ai) {
 			return EVUTIL_EAI_ADDRFAMILY;
